@@ -303,6 +303,23 @@ pub fn run(ctx: &Ctx) -> (Stats, Report) {
     }
     st.section("affixed_tokens", &mut mark);
 
+    // 1a: texts at the range limits (interval fields in several orders, carrying fractions, the
+    // 12-hour respelling of the last second of the day), shared with C02, through every parse
+    // entry point of every type: a value or an Error, never a panic (in either build profile)
+    {
+        for (k, (_, pic, text)) in super::c02::limit_texts().iter().enumerate() {
+            st.evaluations += 1;
+            st.nontrivial_enum += 1;
+            st.class("limit-text");
+            if let Err(m) = check_text(pic, text) {
+                st.fail(k as u64, Case::new(P, "text", vec![], vec![pic.clone(), text.clone()]), m);
+                break;
+            }
+        }
+        st.exhaustive_sections.push("interval / time / timestamp texts at the range limits in several field orders with carrying fractions x every parse entry point of the 6 types".into());
+    }
+    st.section("limit_texts", &mut mark);
+
     // 1b: every short string over the input alphabet as an input, against fixed pictures
     let ilen = if ctx.thorough { 4 } else { 3 };
     for len in 0..=ilen {
